@@ -475,7 +475,7 @@ class Engine:
 
     def cur_key(self):
         c = self.cur
-        if c.name == c.qualname or c.kind == 'lemma':
+        if c.name == c.qualname or c.kind in ('lemma', 'client'):
             return c.target
         return '%s[%s]' % (c.target, c.name)
 
